@@ -26,7 +26,11 @@ def _watch_progress():
             if seen[key] > REPEAT_LIMIT:
                 chain, box, skip = [], root_box, resume_at
                 while isinstance(skip, dict) and skip and box is not None:
-                    chain.append(type(box).__name__)
+                    name = type(box).__name__
+                    if name in ('FlexBox', 'InlineFlexBox') and box.style['flex_wrap'] == 'wrap-reverse':
+                        # the lines of this container are laid out in reverse order (F241)
+                        name += '[wrap-reverse]'
+                    chain.append(name)
                     (i, skip), = list(skip.items())[:1]
                     children = getattr(box, 'children', ())
                     box = children[i] if isinstance(i, int) and i < len(children) else None
